@@ -127,14 +127,14 @@ def _step_io(step):
     ext = corpus.KIND_EXT.get(kind, ".bin") if kind != "zip" else iso.source_ext(recipe["src"])
     if isinstance(pidx, dict):
         name = iso.path_for(pidx.get("pidx", 1), ext) or ("in" + ext)
-        return kind, data, dict(pidx, name=name.lstrip("/"))
+        return kind, data, dict(pidx, name=name.lstrip("/"), dir=hashlib.sha1(json.dumps(recipe, sort_keys=True).encode()).hexdigest()[:16])
     return kind, data, iso.path_for(pidx, ext)
 
 
 def _via_read_file(data, opts):
     """sharepoint2text.read_file on a real file holding ``data`` (the documented file entry point, with its option flags)."""
     import sharepoint2text
-    d = os.path.join(_rf_root(), hashlib.sha1(data).hexdigest()[:16])
+    d = os.path.join(_rf_root(), opts["dir"])        # named after the recipe, not the bytes: container timestamps (gzip) may differ between processes
     fp = os.path.join(d, opts["name"])
     if not os.path.exists(fp):
         os.makedirs(os.path.dirname(fp), exist_ok=True)
@@ -142,7 +142,7 @@ def _via_read_file(data, opts):
         with open(tmp, "wb") as f:
             f.write(data)
         os.replace(tmp, fp)
-    kw = {k: v for k, v in opts.items() if k not in ("entry", "pidx", "name")}
+    kw = {k: v for k, v in opts.items() if k not in ("entry", "pidx", "name", "dir")}
     return list(sharepoint2text.read_file(fp, **kw))
 
 
@@ -735,7 +735,7 @@ def _feature(step) -> str:
     """Mechanism-level name of what a step is: '' for the generic pool ('sequence' / 'mixed-workload'), family + varied context for a context-group member."""
     src = step[1]["src"]
     if len(step) > 2 and isinstance(step[2], dict):
-        opts = "+".join(k for k in sorted(step[2]) if k not in ("entry", "pidx", "name"))
+        opts = "+".join(k for k in sorted(step[2]) if k not in ("entry", "pidx", "name", "dir"))
         return f"{step[2]['entry']}-{step[0]}" + (f"-with-{opts}" if opts else "")
     if iso.is_iso(src):
         return iso.feature(src, step[0]) + ("" if not step[1].get("op") else "-damaged")
